@@ -120,6 +120,11 @@ def run_step(step, comps):
                     rd, wr = dialect_obj(read), dialect_obj(write)
                     return ["ok", [wr.generate(e, copy=False) if e else "" for e in rd.parse(sql)]]
                 return ["ok", sqlglot.transpile(sql, read=read, write=write, **_gen_opts(step.get("opts")))]
+            if op == "annotate_raw":
+                from sqlglot.optimizer.annotate_types import annotate_types
+
+                t = annotate_types(sqlglot.parse_one(sql, read=read), dialect=read)
+                return ["ok", [[s.alias_or_name, s.type.sql(read) if s.type else None] for s in t.selects]]
             if op in ("optimize", "qualify", "annotate", "lineage", "rule"):
                 from sqlglot.schema import MappingSchema
 
